@@ -74,7 +74,6 @@ static int     g_torn_down;
 static int     g_opidx;
 static long    g_collections_seen;    /* sweeps proven by a finalised junk/garbage object */
 static int     g_avoid;
-static int     g_focus;
 static uint32_t* g_seenmark; static uint32_t g_seen_id;
 
 /* header address -> oid (open addressing), for the free hook */
@@ -92,6 +91,12 @@ static int pmap_get(void* hdr) {
 static void* hdr_of(var p) { return (char*)p - sizeof(struct Header); }
 
 #define HV(prop, cls, ...) do { viol(prop, cls, __VA_ARGS__); } while (0)
+static int g_focus;
+/* the exactly-once ledger speaks for C06; while the C05 check runs, faults about a Box or what it owns are C05's ("every
+ * object owned through a Box is finalised exactly once") */
+#define LV(oid, cls6, ...) do { int o__ = (oid); int box__ = o__ >= 0 && (O[o__].kind == HK_BOX || (O[o__].owner >= 0 && O[O[o__].owner].kind == HK_BOX)); \
+  if (g_focus == 5 && box__) { char c5__[128]; snprintf(c5__, sizeof c5__, "C05:box%s", (cls6) + 3); viol("C05", c5__, __VA_ARGS__); } \
+  viol("C06", cls6, __VA_ARGS__); } while (0)
 
 static void on_free_hook(void* p, size_t size, int tag) {
   (void)size;
@@ -100,9 +105,9 @@ static void on_free_hook(void* p, size_t size, int tag) {
   if (oid < 0) return;
   Obj* o = &O[oid];
   if (o->ptr != (char*)p + sizeof(struct Header)) return;   /* stale mapping of a reused address */
-  if (o->freed) HV("C06", "C06:released-twice", "object #%d (%s) released twice", oid, HKNAME[o->kind]);
+  if (o->freed) LV(oid, "C06:released-twice", "object #%d (%s) released twice", oid, HKNAME[o->kind]);
   if (o->kind == HK_NODE && !o->finalised)
-    HV("C06", "C06:released-without-finalisation", "Node #%d released but its destructor never ran", oid);
+    LV(oid, "C06:released-without-finalisation", "Node #%d released but its destructor never ran", oid);
   o->freed = 1;
   if (o->kind == HK_JUNK || !o->alive || !o->reach) g_collections_seen++;
 }
@@ -111,7 +116,7 @@ static void Node_Del(var self) {
   struct Node* n = self;
   int oid = (int)n->oid;
   if (oid < 0 || oid >= g_nobj || O[oid].ptr != self) HV("C06", "C06:finalised-garbage", "Node destructor ran on bytes that are not a ledger object");
-  if (O[oid].finalised) HV("C06", "C06:finalised-twice", "Node #%d finalised twice", oid);
+  if (O[oid].finalised) LV(oid, "C06:finalised-twice", "Node #%d finalised twice", oid);
   O[oid].finalised = 1;
 }
 
@@ -658,7 +663,7 @@ static void heap_execute(const Plan* p) {
     g_opidx = i;
     /* a crash / uncaught exception inside the engine counts against the property whose check is running: C01, C06 and C17
      * all require collections and deletions to run to completion */
-    const char* prop = focus == 6 ? "C06" : focus == 17 ? "C17" : focus == 19 ? "C19" :
+    const char* prop = focus == 6 ? "C06" : focus == 5 ? "C05" : focus == 17 ? "C17" : focus == 19 ? "C19" :
                        (op->code == H_DEL || op->code == H_STOP || op->code == H_START) ? "C06" : "C01";
     progress(i, prop, OPS[op->code].name);
     ev("op %d %s", i, OPS[op->code].name);
@@ -694,7 +699,7 @@ static void heap_execute(const Plan* p) {
     ev("n=%d live=%ld", g_nobj, arena_live_count());
   }
   /* teardown: objects allocated while the collector was stopped are the program's to delete */
-  progress(p->nops, focus == 17 ? "C17" : focus == 1 ? "C01" : "C06", "teardown");
+  progress(p->nops, focus == 17 ? "C17" : focus == 1 ? "C01" : focus == 5 ? "C05" : "C06", "teardown");
   if (g_stopped) { start(current(GC)); g_stopped = 0; }
   for (int i = 0; i < g_nobj; i++) if (O[i].alive && O[i].cls == CL_UNREG && O[i].owner < 0 && O[i].kind != HK_JUNK) { var q = O[i].ptr; kill_obj(i); del(q); }
   for (int i = 0; i < NTLS; i++) if (g_tls_oid[i] >= 0) { rem(current(Thread), $S((char*)tlskeys[i])); g_tls_oid[i] = -1; }
@@ -711,7 +716,7 @@ static void heap_execute(const Plan* p) {
 static void heap_final_checks(const Plan* p) {
   long swept = -g_freed_before_teardown; for (int i = 0; i < g_nobj; i++) swept += O[i].freed;
   stat_add("heap.freed_at_teardown", swept);
-  progress(p->nops, g_focus == 17 ? "C17" : g_focus == 1 ? "C01" : "C06", "teardown-check");
+  progress(p->nops, g_focus == 17 ? "C17" : g_focus == 1 ? "C01" : g_focus == 5 ? "C05" : "C06", "teardown-check");
   for (int i = 0; i < g_nobj; i++) {
     Obj* o = &O[i];
     char cls[128];
@@ -726,10 +731,10 @@ static void heap_final_checks(const Plan* p) {
       char ownedby[32]; snprintf(ownedby, sizeof ownedby, "owned-by-%s", o->owner >= 0 ? HKNAME[O[o->owner].kind] : "");
       const char* why = o->owner >= 0 ? ownedby : o->cls == CL_UNREG ? "allocated-while-stopped" : o->deferred ? "deleted-while-stopped" : !o->alive ? "explicitly-deleted" : "garbage";
       snprintf(cls, sizeof cls, "C06:never-released:%s:%s", HKNAME[o->kind], why);
-      HV("C06", cls, "object #%d (%s, %s) was never released by teardown", i, HKNAME[o->kind], why);
+      LV(i, cls, "object #%d (%s, %s) was never released by teardown", i, HKNAME[o->kind], why);
     }
-    if (o->kind == HK_NODE && o->freed && !o->finalised) HV("C06", "C06:released-without-finalisation", "Node #%d released without finalisation", i);
-    if (o->kind == HK_NODE && must_be_gone && !o->finalised) { snprintf(cls, sizeof cls, "C06:never-finalised:%s", HKNAME[o->kind]); HV("C06", cls, "Node #%d never finalised", i); }
+    if (o->kind == HK_NODE && o->freed && !o->finalised) LV(i, "C06:released-without-finalisation", "Node #%d released without finalisation", i);
+    if (o->kind == HK_NODE && must_be_gone && !o->finalised) { snprintf(cls, sizeof cls, "C06:never-finalised:%s", HKNAME[o->kind]); LV(i, cls, "Node #%d never finalised", i); }
   }
   stat_add("heap.objects", g_nobj);
   stat_add("heap.collections_seen", g_collections_seen);
@@ -741,7 +746,7 @@ static void heap_nontrivial(void) {
   int f = 0;
   /* the rule depends on the property the run was generated for (env focus) */
   long coll = stat_get("heap.collections_seen");
-  if (g_focus == 6) f = coll > 0 && (stat_get("heap.new_box") > 0 || stat_get("heap.stop") > 0) && stat_get("heap.freed_at_teardown") > 0;
+  if (g_focus == 6 || g_focus == 5) f = coll > 0 && (stat_get("heap.new_box") > 0 || stat_get("heap.stop") > 0) && stat_get("heap.freed_at_teardown") > 0;
   else if (g_focus == 17) f = coll > 0 && stat_get("reg.grow") >= 3 && stat_get("reg.shrink") >= 1;
   else if (coll > 0 && stat_get("heap.checks_with_nonstack_reachable") > 0) f = 1;
   if (f) mark_nontrivial();
@@ -761,7 +766,7 @@ static void heap_generate(Plan* p, Rng* r) {
   if (plan_env(p, "inthread", -1) < 0 && focus != 19) plan_env_set(p, "inthread", rng_chance(r, 1, 5));
   int nops = rng_chance(r, 6, 10) ? 10 + (int)rng_below(r, 50) : 60 + (int)rng_below(r, 240);
   int stopped = 0;
-  int allow_stop = (focus == 6 || focus == 17 || focus == 0) && !(plan_env(p, "avoid_kf", 0) & 8);
+  int allow_stop = (focus == 6 || focus == 5 || focus == 17 || focus == 0) && !(plan_env(p, "avoid_kf", 0) & 8);
   int badpct = focus == 19 ? 12 : 0;
   for (int i = 0; i < nops && p->nops < MAXOPS - 4; i++) {
     uint32_t d = rng_below(r, 100);
@@ -771,7 +776,7 @@ static void heap_generate(Plan* p, Rng* r) {
     d = rng_below(r, 100);
     if (d < 14) plan_add(p, H_NEWNODE, 0, fault, a, b, 0, 0, 0, 0);
     else if (d < 19) plan_add(p, H_NEWREF, 0, fault, a, b, c, 0, 0, 0);
-    else if (d < (uint32_t)(focus == 6 ? 29 : 23)) plan_add(p, H_NEWBOX, 0, fault, a, b, c, 0, 0, 0);
+    else if (d < (uint32_t)(focus == 6 ? 29 : focus == 5 ? 33 : 23)) plan_add(p, H_NEWBOX, 0, fault, a, focus == 5 ? b % 2 : b, c, 0, 0, 0);
     else if (d < 31) plan_add(p, H_NEWCONT, 0, fault, a, b, c, 0, 0, 0);
     else if (d < 56) plan_add(p, H_LINK, 0, fault, a, b, c, 0, 0, 0);
     else if (d < 64) plan_add(p, H_UNLINK, 0, fault, a, b, 0, 0, 0, 0);
